@@ -422,6 +422,16 @@ class Interp:
             n = e.func.id
             if env.has(n):
                 f = env.get(n)
+                if isinstance(f, ClassRef):
+                    # a local name bound to a function / class of another module (func = sa.union ...)
+                    for key in (f.name, f.name.split('.')[-1]):
+                        if key in self.stubs and callable(self.stubs[key]):
+                            self.trace.append((key, args, kwargs))
+                            return self.stubs[key](self, *args, **kwargs)
+                    self.trace.append((f.name, args, kwargs))
+                    o = Obj(f.name.split('.')[-1], **kwargs)
+                    o.attrs['_args'] = args
+                    return o
                 if callable(f):
                     return f(*args, **kwargs)
             if n == 'len':
